@@ -57,8 +57,11 @@ type vmbWorldCase struct {
 	Nodes int    `json:"nodes"` // independently constructed Node objects (1 or 2)
 	// duration of one abstract tick in ns; 0 = 10 s. With 1, adjacent ticks are adjacent
 	// nanoseconds (only meaningful while every age in the world stays <= 3 ticks: C11 walks)
-	TickNs uint64    `json:"tickns,omitempty"`
-	Steps  []vmbStep `json:"steps"`
+	TickNs uint64 `json:"tickns,omitempty"`
+	// seconds added to the genesis epoch (0 = a UTC midnight): the hours of the code are counted
+	// from the epoch, not from UTC midnight
+	EpochOff int64     `json:"epochoff,omitempty"`
+	Steps    []vmbStep `json:"steps"`
 }
 
 type vmbCases struct {
@@ -95,6 +98,7 @@ type vmbWorld struct {
 	replicas   []*vmbReplica
 	custodians map[string]int // custodian address -> update number (0 = genesis)
 	tick       uint64         // ns per abstract tick
+	epoch      int64          // genesis epoch, unix seconds
 }
 
 // vmbHarnessError is a failure of the harness itself (never a verdict): it aborts the run (exit 2).
@@ -116,13 +120,13 @@ func vmbSignerAddress(label string) common.Address {
 }
 
 func vmbNewWorld(t *testing.T, wc *vmbWorldCase, salt string) *vmbWorld {
-	w := &vmbWorld{t: t, byId: make(map[crypto.Hash]*vmbMember), custodians: make(map[string]int), tick: vmbTick}
+	w := &vmbWorld{t: t, byId: make(map[crypto.Hash]*vmbMember), custodians: make(map[string]int), tick: vmbTick, epoch: vmbEpoch + wc.EpochOff}
 	if wc.TickNs > 0 {
 		w.tick = wc.TickNs
 	}
 	var sb strings.Builder
 	cust := vmbSignerAddress(salt + "/custodian")
-	fmt.Fprintf(&sb, `{"epoch":%d,"custodian":%q,"nodes":[`, vmbEpoch, cust.String())
+	fmt.Fprintf(&sb, `{"epoch":%d,"custodian":%q,"nodes":[`, w.epoch, cust.String())
 	var all []*vmbMember
 	for i := 0; i < wc.G; i++ {
 		m := &vmbMember{
@@ -257,7 +261,7 @@ func (w *vmbWorld) member(name string) *vmbMember {
 }
 
 func (w *vmbWorld) real(tick uint64) uint64 {
-	return uint64(time.Unix(vmbEpoch, 0).UnixNano()) + tick*w.tick
+	return uint64(time.Unix(w.epoch, 0).UnixNano()) + tick*w.tick
 }
 
 func (w *vmbWorld) genesisRanks() []int {
@@ -369,7 +373,7 @@ func (w *vmbWorld) ranks(ids []crypto.Hash) []int {
 // observedHistory projects node.allNodesSortedWithState (what LoadConsensusNodes produced).
 func (w *vmbWorld) observedHistory(node *Node) []vM {
 	out := make([]vM, 0, len(node.allNodesSortedWithState))
-	e := uint64(time.Unix(vmbEpoch, 0).UnixNano())
+	e := uint64(time.Unix(w.epoch, 0).UnixNano())
 	for _, cn := range node.allNodesSortedWithState {
 		out = append(out, vM{"n": w.rankOf(cn.IdForNetwork), "ts": int64(cn.Timestamp-e) / int64(w.tick), "st": cn.State})
 	}
@@ -443,6 +447,59 @@ func (w *vmbWorld) certifyAll(chain *Chain, round, ts uint64, label string) (str
 	return res, final
 }
 
+// certifyTwoThresholds: where the non-final threshold (the aggregator's check in
+// cosiHandleResponse) differs from the final one, a certificate signed by the first m keys,
+// m = the smaller of the two, is verified on ONE node object under both thresholds, in both orders:
+//
+//	A: cacheVerifyCosi(non-final threshold) first, then verifyFinalization    -> finalA
+//	B: (another certificate, same signers) verifyFinalization first           -> finalB, then
+//	   cacheVerifyCosi(non-final threshold)                                   -> nfB
+//
+// The final verdict may depend only on the certificate, the key set and the final threshold.
+func (w *vmbWorld) certifyTwoThresholds(chain *Chain, round, ts uint64, thrF int, label string) vM {
+	node := chain.node
+	var out vM
+	vCall(func() error {
+		thrN := node.ConsensusThreshold(ts, false)
+		ids, publics := chain.ConsensusKeys(round, ts)
+		m := thrN
+		if thrF < m {
+			m = thrF
+		}
+		if thrN == thrF || m > len(ids) || m < 1 {
+			return nil
+		}
+		privs := make([]*crypto.Key, len(ids))
+		for i, id := range ids {
+			mb := w.byId[id]
+			if mb == nil {
+				return fmt.Errorf("unknown key")
+			}
+			k := mb.signer.PrivateSpendKey
+			privs[i] = &k
+		}
+		pos := make([]int, m)
+		for i := range pos {
+			pos[i] = i
+		}
+		sa, err := vmbSign(chain.ChainId, round, ts, label+"/A", publics, privs, pos)
+		if err != nil {
+			return err
+		}
+		sb, err := vmbSign(chain.ChainId, round, ts, label+"/B", publics, privs, pos)
+		if err != nil {
+			return err
+		}
+		_, nfA := node.cacheVerifyCosi(sa.Hash, sa.Signature, ids, publics, thrN)
+		_, finalA := chain.verifyFinalization(sa)
+		_, finalB := chain.verifyFinalization(sb)
+		_, nfB := node.cacheVerifyCosi(sb.Hash, sb.Signature, ids, publics, thrN)
+		out = vM{"m": m, "thrN": thrN, "nfA": nfA, "finalA": finalA, "finalB": finalB, "nfB": nfB}
+		return nil
+	})
+	return out
+}
+
 // ---------------------------------------------------------------- C10
 func (w *vmbWorld) queryC10(st vmbStep) vM {
 	node := w.replicas[0].node
@@ -477,6 +534,9 @@ func (w *vmbWorld) queryC10(st vmbStep) vM {
 		keys = w.ranks(ids)
 		cres, final := w.certifyAll(chain, round, ts, fmt.Sprintf("vmb-cert/%d/%s", st.T, st.Kind))
 		ev["certres"], ev["final"] = cres, final
+		if two := w.certifyTwoThresholds(chain, round, ts, thr, fmt.Sprintf("vmb-cert2/%d/%s", st.T, st.Kind)); two != nil {
+			ev["two"] = two
+		}
 		return nil
 	})
 	ev["res"] = res
@@ -795,6 +855,7 @@ func (w *vmbWorld) queryViews(st vmbStep) vM {
 	}
 	ev["view"] = view
 	cust := vM{"k": 0, "ts": 0, "nodes": 0}
+	var first *common.CustodianUpdateRequest
 	cres, _ := vCall(func() error {
 		cur, err := rp.store.ReadCustodian(ts)
 		if err != nil {
@@ -803,11 +864,12 @@ func (w *vmbWorld) queryViews(st vmbStep) vM {
 		if cur == nil {
 			return nil
 		}
+		first = cur
 		k, ok := w.custodians[cur.Custodian.String()]
 		if !ok {
 			k = -1
 		}
-		e := uint64(time.Unix(vmbEpoch, 0).UnixNano())
+		e := uint64(time.Unix(w.epoch, 0).UnixNano())
 		cts := (cur.Timestamp - e) / w.tick
 		if k == 0 {
 			cts = 0 // the genesis custodian is written at epoch + 1 ns
@@ -817,6 +879,87 @@ func (w *vmbWorld) queryViews(st vmbStep) vM {
 	})
 	ev["custres"] = cres
 	ev["cust"] = cust
+	// A caller owns its answer: scribble over everything ReadCustodian / ListCustodianUpdates
+	// returned and ask again. The second answer is served from the in-memory cache where the first
+	// one filled it; both must be the same.
+	describe := func(cur *common.CustodianUpdateRequest) vM {
+		if cur == nil {
+			return vM{"k": 0, "ts": 0, "nodes": 0, "sum": ""}
+		}
+		k, ok := w.custodians[cur.Custodian.String()]
+		if !ok {
+			k = -1
+		}
+		e := uint64(time.Unix(w.epoch, 0).UnixNano())
+		cts := (cur.Timestamp - e) / w.tick
+		if k == 0 {
+			cts = 0
+		}
+		var all []byte
+		for _, n := range cur.Nodes {
+			all = append(all, n.Custodian.PublicSpendKey[:]...)
+			all = append(all, n.Payee.PublicSpendKey[:]...)
+			all = append(all, n.Extra...)
+		}
+		all = append(all, cur.Transaction[:]...)
+		if cur.Signature != nil {
+			all = append(all, cur.Signature[:]...)
+		}
+		return vM{"k": k + 1, "ts": cts, "nodes": len(cur.Nodes), "sum": crypto.Blake3Hash(all).String()[:16]}
+	}
+	scribble := func(cur *common.CustodianUpdateRequest) {
+		if cur == nil {
+			return
+		}
+		for _, n := range cur.Nodes {
+			for i := range n.Extra {
+				n.Extra[i] ^= 0x5a
+			}
+			n.Custodian.PublicSpendKey[0] ^= 0xff
+			n.Payee.PublicSpendKey[1] ^= 0xff
+		}
+		if len(cur.Nodes) > 1 {
+			cur.Nodes[0], cur.Nodes[1] = cur.Nodes[1], cur.Nodes[0]
+			cur.Nodes = cur.Nodes[:len(cur.Nodes)-1]
+		}
+		if cur.Custodian != nil {
+			cur.Custodian.PublicSpendKey[2] ^= 0xff
+		}
+		if cur.Signature != nil {
+			cur.Signature[3] ^= 0xff
+		}
+		cur.Transaction[4] ^= 0xff
+		cur.Timestamp += 7
+	}
+	reads := []vM{}
+	lists := [][]vM{}
+	rres, _ := vCall(func() error {
+		scribble(first) // the answer already reported above (possibly the one that filled the cache)
+		for pass := 0; pass < 2; pass++ {
+			cur, err := rp.store.ReadCustodian(ts)
+			if err != nil {
+				return err
+			}
+			reads = append(reads, describe(cur))
+			scribble(cur)
+			all, err := rp.store.ListCustodianUpdates()
+			if err != nil {
+				return err
+			}
+			l := []vM{}
+			for _, c := range all {
+				l = append(l, describe(c))
+			}
+			lists = append(lists, l)
+			for _, c := range all {
+				scribble(c)
+			}
+		}
+		return nil
+	})
+	ev["rereadres"] = rres
+	ev["reread"] = reads
+	ev["relist"] = lists
 	return ev
 }
 
